@@ -80,6 +80,8 @@ func (c *Ctx) TypecheckAll(tag string, cases []TC) ([]core.CompileResult, []stri
 		d := c.Env.CaseDir(tag, fmt.Sprintf("c%d", i))
 		dirs[i] = d
 		for rel, content := range cs.Files {
+			// {{PROJ}} = project name (basename of the entry directory), the root of local import paths
+			content = strings.ReplaceAll(content, "{{PROJ}}", filepath.Base(d))
 			if err := core.WriteFile(filepath.Join(d, rel), content); err != nil {
 				return nil, nil, err
 			}
